@@ -776,19 +776,19 @@ func (*ParserData).AddStoreComputed
   props C01 C14 C08
   requires p != nil && len(p.codeStack) >= 1
   requires 0 <= p.codeStack[len(p.codeStack)-1].index && p.codeStack[len(p.codeStack)-1].index <= len(p.codeStack[len(p.codeStack)-1].code) && len(p.codeStack[len(p.codeStack)-1].code) >= 1
-  ghost at precall 1 NewComputedValRaw: ghostAssert(arg0.Expr == text)
+  ghost at precall? 1 NewComputedValRaw: ghostAssert(arg0.Expr == text)
 
 func (*ParserData).AddStoreComputedOnStack
   props C01 C14 C08
   requires p != nil && len(p.codeStack) >= 1
   requires 0 <= p.codeStack[len(p.codeStack)-1].index && p.codeStack[len(p.codeStack)-1].index <= len(p.codeStack[len(p.codeStack)-1].code) && len(p.codeStack[len(p.codeStack)-1].code) >= 1
-  ghost at precall 1 NewComputedValRaw: ghostAssert(arg0.Expr == text)
+  ghost at precall? 1 NewComputedValRaw: ghostAssert(arg0.Expr == text)
 
 func (*ParserData).AddStoreFunction
   props C01 C14 C08
   requires p != nil && len(p.codeStack) >= 1
   requires 0 <= p.codeStack[len(p.codeStack)-1].index && p.codeStack[len(p.codeStack)-1].index <= len(p.codeStack[len(p.codeStack)-1].code) && len(p.codeStack[len(p.codeStack)-1].code) >= 1
-  ghost at precall 1 NewFunctionValRaw: ghostAssert(arg0.Expr == text && arg0.Name == name)
+  ghost at precall? 1 NewFunctionValRaw: ghostAssert(arg0.Expr == text && arg0.Name == name)
   loop 1
     invariant 0 <= i && i <= len(paramsReversed) && -1 <= j && j < len(paramsReversed) && i + j == len(paramsReversed) - 1
 
